@@ -252,6 +252,17 @@ def _cff_scale(visitor, args):
             arg[-1] = num_blends
 
 
+def _cff_scale_dict_value(visitor, value):
+    # Blended DICT operands are [default, delta1, ..., deltaN] (possibly nested in
+    # an array operand): unlike charstring blend arguments there is no trailing
+    # numBlends, every entry is a font-unit value.
+    for i, v in enumerate(value):
+        if isinstance(v, list):
+            _cff_scale_dict_value(visitor, v)
+        else:
+            value[i] = visitor.scale(v)
+
+
 @ScalerVisitor.register_attr(
     (ttLib.getTableClass("CFF "), ttLib.getTableClass("CFF2")), "cff"
 )
@@ -316,7 +327,7 @@ def visit(visitor, obj, attr, cff):
                 if value is None:
                     continue
                 if isinstance(value, list):
-                    _cff_scale(visitor, value)
+                    _cff_scale_dict_value(visitor, value)
                 else:
                     setattr(private, attr, visitor.scale(value))
 
